@@ -631,6 +631,72 @@ def eval_configured_reader(case):
     return out
 
 
+def config_candidates(H, h):
+    """strings that may be the config-only form of hash h: h without the text of its digest, with and without the
+    separator in front of it (read off the string; the parser under test only says which of them it ACCEPTS)"""
+    try:
+        chk = H.from_string(h).checksum
+    except Exception:  # noqa: BLE001
+        return []
+    cands = []
+    if isinstance(chk, str) and chk and h.endswith(chk):
+        cands.append(h[: -len(chk)])
+    else:
+        for sep in "$,:|}":
+            if sep in h:
+                cands.append(h[: h.rindex(sep) + 1])
+    cands += [c[:-1] for c in list(cands) if c and c[-1] in "$,:|"]
+    return [c for c in dict.fromkeys(cands) if c and c != h]
+
+
+def eval_config_only(case):
+    """a config-only string the hasher accepts (settings without a digest) re-renders to a config-only string that it
+    accepts again, with the same settings and the same genhash() result -- never to the text 'None', never an error"""
+    name, st, p = case["hasher"], dict(case["settings"] or {}), case["password"]
+    ctx = dict(case.get("ctx") or {})
+    H = HS.handler(name)
+    key = f"C07|{name}|config_only:"
+    out = []
+    try:
+        h = (H.using(**st) if st else H).hash(p, **ctx)
+    except Exception:  # noqa: BLE001
+        return []
+    for c in config_candidates(H, h):
+        for form, inp in (("str", c), ("bytes", c.encode("ascii") if c.isascii() else None)):
+            if inp is None:
+                continue
+            try:
+                rec = H.from_string(inp)
+            except Exception:  # noqa: BLE001 - not accepted as a config string: nothing to demand
+                continue
+            if rec.checksum is not None:
+                continue
+            try:
+                s2 = rec.to_string()
+            except Exception as e:  # noqa: BLE001
+                out.append((key + f"to_string_raises:{type(e).__name__}", f"{name}.from_string({inp!r}).to_string() raised {e!r}"))
+                continue
+            try:
+                rec2 = H.from_string(s2)
+            except Exception as e:  # noqa: BLE001
+                out.append((key + "rerendered_not_accepted", f"{name}.from_string({inp!r}).to_string() = {s2!r}, which from_string() refuses ({e!r})"))
+                continue
+            if rec2.checksum is not None or rec2.to_string() != s2:
+                out.append((key + "rerendered_unstable", f"{name}: {inp!r} -> {s2!r} -> {rec2.to_string()!r} (digest {rec2.checksum!r})"))
+            for a in ("salt", "rounds", "ident", "variant", "version", "block_size", "parallelism", "algs", "bare_salt"):
+                if getattr(rec2, a, None) != getattr(rec, a, None):
+                    out.append((key + f"attr:{a}", f"{name}: {inp!r} parses to {a}={getattr(rec, a, None)!r}, its re-rendering {s2!r} to {getattr(rec2, a, None)!r}"))
+            if hasattr(H, "genhash"):
+                try:
+                    g1, g2 = H.genhash(p, inp, **ctx), H.genhash(p, s2, **ctx)
+                    if g1 != g2 or g1 != h:
+                        out.append((key + "genhash", f"{name}.genhash(p, {inp!r}) = {g1!r}, genhash(p, {s2!r}) = {g2!r}, hash() under the same settings {h!r}"))
+                except Exception as e:  # noqa: BLE001
+                    out.append((key + f"genhash_raises:{type(e).__name__}", f"{name}.genhash(p, {inp!r} / {s2!r}) raised {e!r}"))
+    return out
+
+
+EVALS["config_only"] = eval_config_only
 EVALS["configured_reader"] = eval_configured_reader
 
 
@@ -687,6 +753,15 @@ def run(ctx):
                 for v in vals:
                     cases.append({"part": "synthetic", "hasher": name, "settings": st, "attr": attr, "value": v,
                                   "ctx": HS.ctx_grid(name)[0], "label": f"{attr}={v}", "si": str(st.get("ident"))})
+    # part config_only: the digest-less form of every generated hash (where the hasher accepts one)
+    for name in HS.usable_names():
+        H = HS.handler(name)
+        if is_wrapper(name) or not hasattr(H, "from_string") or (name in HS.SLOW and HS.SLOW[name] >= 2):
+            continue
+        for si, st in enumerate(HS.settings_grid(name, True, ctx.seed)):
+            ck = HS.ctx_grid(name)[0]
+            if HS.admissible(name, "pw", ck, st):
+                cases.append({"part": "config_only", "hasher": name, "settings": st, "password": "pw", "ctx": ck, "si": si})
     # part configured_reader: every ordered pair of settings that differ in a structure-bearing option
     STRUCT = ("ident", "variant", "version", "block_size", "parallelism", "algs", "marker", "salt_size", "rounds", "truncate_error")
     for name in HS.usable_names():
